@@ -1,9 +1,25 @@
-// Correspondence harness: ikos::interval_domain<z_number> under operation histories.
+// Correspondence harness: ikos::interval_domain<z_number> under operation histories,
+// directly (--mode=plain), through the type-erased wrapper abstract_domain (--mode=gen)
+// and through the copy-on-write wrapper abstract_domain_ref (--mode=ref).
 #include "domhist.hpp"
 #include <crab/domains/intervals.hpp>
+#include <crab/domains/generic_abstract_domain.hpp>
+#include <cstring>
 typedef ikos::interval_domain<ikos::z_number, crab::cfg_impl::varname_t> dom_t;
-static std::string eval(const std::vector<std::string> &t) { return domhist::run_history<dom_t>(t); }
+typedef crab::domains::abstract_domain<crab::cfg_impl::z_var> gen_t;
+typedef crab::domains::abstract_domain_ref<crab::cfg_impl::z_var> ref_t;
+static int mode = 0;
+static std::string eval(const std::vector<std::string> &t) {
+  dom_t top;
+  if (mode == 1) { gen_t g(top); return domhist::run_history<gen_t>(t, g); }
+  if (mode == 2) { ref_t r(top); return domhist::run_history<ref_t>(t, r); }
+  return domhist::run_history<dom_t>(t, top);
+}
 int main(int argc, char **argv) {
   crab::CrabEnableWarningMsg(false);
+  if (argc > 1 && std::strncmp(argv[1], "--mode=", 7) == 0) {
+    mode = std::strcmp(argv[1] + 7, "gen") == 0 ? 1 : std::strcmp(argv[1] + 7, "ref") == 0 ? 2 : 0;
+    return vh::run_cases(argc - 1, argv + 1, eval);
+  }
   return vh::run_cases(argc, argv, eval);
 }
